@@ -268,9 +268,41 @@ fn history(ctx: &Ctx, rng: &mut Rng, is128: bool, host_rom: bool, len: usize, st
                 }
                 seq = seq.wrapping_add(1);
                 let v = seq ^ 0x5A;
-                cpu_write(&mut m, a, v);
-                sh.write(a, v);
-                hist.push(format!("LD ({:04x}),{:02x}", a, v));
+                if rng.chance(1, 4) && !reserved(&sh, a.wrapping_add(1)) {
+                    // 16-bit stores: two byte cycles, each obeying the map on its own (a word at
+                    // 0x3FFF loses its low byte to the ROM and keeps its high byte in bank 5)
+                    let w = v.wrapping_mul(3) ^ 0xC3;
+                    let form = rng.below(4);
+                    let rf = m.regs();
+                    match form {
+                        0 => {
+                            m.cpu().regs.set_hl((w as u16) << 8 | v as u16);
+                            m.exec_at(SCRATCH, &[0x22, a as u8, (a >> 8) as u8], 1);
+                        }
+                        1 => {
+                            m.cpu().regs.set_de((w as u16) << 8 | v as u16);
+                            m.exec_at(SCRATCH, &[0xED, 0x53, a as u8, (a >> 8) as u8], 1);
+                        }
+                        2 => {
+                            m.cpu().regs.set_ix((w as u16) << 8 | v as u16);
+                            m.exec_at(SCRATCH, &[0xDD, 0x22, a as u8, (a >> 8) as u8], 1);
+                        }
+                        _ => {
+                            // PUSH BC with SP = a+2: high byte to a+1 first, then low byte to a
+                            m.cpu().regs.set_bc((w as u16) << 8 | v as u16);
+                            m.cpu().regs.set_sp(a.wrapping_add(2));
+                            m.exec_at(SCRATCH, &[0xC5], 1);
+                        }
+                    }
+                    m.set_regs(&rf);
+                    sh.write(a, v);
+                    sh.write(a.wrapping_add(1), w);
+                    hist.push(format!("{} word ({:04x}) <- {:02x}{:02x}", ["LD (nn),HL", "LD (nn),DE", "LD (nn),IX", "PUSH BC"][form as usize], a, w, v));
+                } else {
+                    cpu_write(&mut m, a, v);
+                    sh.write(a, v);
+                    hist.push(format!("LD ({:04x}),{:02x}", a, v));
+                }
             }
             7 => {
                 // LDIR of 1..6 bytes across borders, source = a fixed-window area
